@@ -81,7 +81,7 @@ func (n *c26net) ticks(from, to time.Duration, permissive bool) int {
 
 func TestVerifC26(t *testing.T) {
 	depth := mc.Pick(3, 4)
-	maxDev := mc.Pick(1, 2)
+	maxDev := mc.Pick(2, 3)
 	nOps := mc.Pick(7, 9) // the quick tier leaves out the second peer's flag and the keep-all prune
 	// the package's own TestMain shortens the resolution for its wall-clock tests; under the
 	// virtual clock the shipped value is used
@@ -124,7 +124,7 @@ func TestVerifC26(t *testing.T) {
 				m.blocks++
 				x.Tag("blocklisted")
 			}
-			verdict := vsched.Run(x, vsched.Options{MaxSteps: 20000, MaxTimers: 60, Trace: mc.EnvInt("VERIF_TRACE", 0) == 1}, func(s *vsched.S) {
+			verdict := vsched.Run(x, vsched.Options{MaxSteps: 20000, MaxTimers: 60, DelayBounded: true, Trace: mc.EnvInt("VERIF_TRACE", 0) == 1}, func(s *vsched.S) {
 				b = New(lister, 3*time.Second, time.Minute, time.Second, nil, logging.New(io.Discard, 0))
 				for step := 0; step < depth; step++ {
 					op := x.Choose(nOps)
@@ -189,6 +189,10 @@ func TestVerifC26(t *testing.T) {
 				x.Logf("final quiet period -> +%v seq=%d fired=%d", s.Elapsed(), seq(), s.TimersFired())
 				if s.TimersFired() >= 60 {
 					x.Tag("timer-horizon-hit")
+				} else if s.TimeSkewed() {
+					// a runnable goroutine was starved while virtual time advanced: the whole-second
+					// tick model behind the liveness clause does not apply to this schedule
+					x.Tag("liveness-skipped-time-skew")
 				} else {
 					for i, m := range mon {
 						if due[i] && m.flagged && violation == "" {
